@@ -218,7 +218,47 @@ static void sched_child(const void *job, size_t n) {
 	res_printf("O %llx %llx\n", (unsigned long long) h.a, (unsigned long long) h.b);
 	hx_emit_trace(); res_finish();
 }
-void c19_register(void) { harness_register("c19.hist", hist_child); harness_register("c19.sweep", sweep_child); harness_register("c19.sched", sched_child); }
+
+/* ---------------------------------------------------------------- c19.packets: several messages in ONE uplink packet
+ * Every sequence of 1..3 messages over an alphabet of seven — the four report kinds from the SecAck board, an occupancy
+ * report from a board without SecAck, a non-report message from the SecAck board (confidence) and a message from a third
+ * board — framed as one packet.  After the packet has been processed every report of the SecAck board has its mirror on the
+ * wire (not in the send buffer), whatever the last message of the packet was. */
+static void packets_child(const void *job, size_t n) {
+	vs_dev_t devs[VS_MAXDEV]; int nd; size_t pl; const uint8_t *p = job_parse(job, n, devs, &nd, &pl);
+	int from = 0, count = 0; memcpy(&from, p, 4); memcpy(&count, p + 4, 4);
+	begin_normal();
+	long cases = 0;
+	for (int c = from; c < from + count && !res_nviol(); c++) {
+		int len = 1, idx = c; long base = 7; while (idx >= base) { idx -= (int) base; base *= 7; len++; }
+		uint8_t payload[200]; int po = 0; char what[160]; size_t wo = (size_t) snprintf(what, sizeof what, "one packet [");
+		for (int i = 0; i < len; i++) { int sym = idx % 7; idx /= 7; uint8_t d[8]; int dl = 0; uint8_t type = 0; int b = 0; static const char *SN[7] = {"occ(m)", "free(m)", "multiple(m)", "position(m)", "occ(oc1)", "confidence(m)", "pong(lc1)"};
+			switch (sym) {
+			case 0: d[0] = (uint8_t) (1 + i); dl = 1; type = MSG_BM_OCC; expect_mirror(0, MSG_BM_MIRROR_OCC, d, 1); break;
+			case 1: d[0] = (uint8_t) (1 + i); dl = 1; type = MSG_BM_FREE; expect_mirror(0, MSG_BM_MIRROR_FREE, d, 1); break;
+			case 2: d[0] = 0; d[1] = 8; d[2] = (uint8_t) (0x11 << i); dl = 3; type = MSG_BM_MULTIPLE; expect_mirror(0, MSG_BM_MIRROR_MULTIPLE, d, 3); break;
+			case 3: d[0] = 0x23; d[1] = 0x01; d[2] = 0; d[3] = (uint8_t) (0x40 + i); d[4] = 0x12; dl = 5; type = MSG_BM_POSITION; expect_mirror(0, MSG_BM_MIRROR_POSITION, d, 5); break;
+			case 4: d[0] = 0; dl = 1; type = MSG_BM_OCC; b = 1; break;
+			case 5: d[0] = 0; d[1] = 0; d[2] = 1; dl = 3; type = MSG_BM_CONFIDENCE; break;
+			default: d[0] = 9; dl = 1; type = MSG_SYS_PONG; b = 2; break;
+			}
+			uint8_t seq = SB.n[b].seq; SB.n[b].seq = seq == 255 ? 1 : (uint8_t) (seq + 1);
+			po += rc_build_msg(payload + po, SB.n[b].addr, seq, type, d, dl);
+			wo += (size_t) snprintf(what + wo, sizeof what - wo, "%s%s", i ? ", " : "", SN[sym]); }
+		snprintf(what + wo, sizeof what - wo, "]");
+		uint8_t f[500]; size_t fl = rc_frame(f, payload, (size_t) po, 1); env_push_quiet(f, fl); vs_point(); hx_quiesce();
+		uint8_t *m; while ((m = bidib_read_message())) free(m);
+		check_quiescent(what); cases++;
+		vs_sleep_us(2500000); hx_quiesce();
+	}
+	res_printf("O %x %x\nC packet_cases %ld\n", from, count, cases);
+	res_finish();
+}
+static size_t packets_gen(long idx, uint8_t *payload, char *human, size_t hn) {
+	int from = (int) idx * 57, count = 57; if (from + count > 399) count = 399 - from;
+	memcpy(payload, &from, 4); memcpy(payload + 4, &count, 4); snprintf(human, hn, "multi-message packets %d..%d", from, from + count - 1); return 8;
+}
+void c19_register(void) { harness_register("c19.packets", packets_child); harness_register("c19.hist", hist_child); harness_register("c19.sweep", sweep_child); harness_register("c19.sched", sched_child); }
 int c19_run(const char *tier) {
 	int thorough = !strcmp(tier, "thorough");
 	const char *variant = getenv("VERIF_VARIANT"); int asan = variant && !strcmp(variant, "asan");
@@ -231,6 +271,9 @@ int c19_run(const char *tier) {
 	if (asan) { rep_count("states", sch_states); rep_count("transitions", sch_cp); rep_count("executions", sch); rep_flag("exhaustive", sch_ex); return 0; }   /* the ASan build runs the schedule harness only */
 	ex_spec_t sw = { .harness = "c19.sweep", .ncases = 3, .gen = sweep_gen, .label = "c19.sweep" };
 	ex_map(&sw);
+	ex_spec_t pkts = { .harness = "c19.packets", .ncases = 7, .gen = packets_gen, .label = "c19.packets" };
+	ex_map(&pkts); sw.done += pkts.done; if (!pkts.exhaustive) sw.exhaustive = 0;
+	rep_note("c19.packets: %ld multi-message packets (every sequence of 1..3 messages over 7 kinds in one packet)", rep_get("packet_cases"));
 	uint8_t param[1] = {0}; const char *d = getenv("VERIF_DEPTH");
 	e2_spec_t s = { .harness = "c19.hist", .param = param, .nparam = 1, .nevents = EV_N, .max_depth = d ? atoi(d) : (thorough ? 7 : 5), .label = "c19.hist", .evname = evname };
 	e2_explore(&s);
